@@ -121,6 +121,17 @@ def harness_ninja(harnesses):
     L.append("rule link_asan\n  command = clang++ -g -fsanitize=address,undefined $in gsched_stub.o %s/libgalois/libgalois_shmem.a $libs -lrapidcheck -lnuma -lpthread -ldl -o $out\n" % variant_dir("fuzz"))
     L.append("rule cxx_native\n  command = g++ -std=c++17 %s -UNDEBUG -march=native %s $defs -MD -MF $out.d -c $in -o $out\n  depfile = $out.d\n  deps = gcc\n"
              % (NATIVE_FLAGS, _inc("native", DIST_INCS)))
+    # distributed (MPI) harness built like a lonestar distributed application
+    nat = variant_dir("native")
+    L.append("rule cxx_dist\n  command = g++ -std=c++17 -Wno-error -O1 -g %s -DNDEBUG -march=native -I%s/libgluon/include -I%s/libgalois/include -I%s/libgalois/include "
+             "-I%s/libpygalois/include -I%s/lonestar/libdistbench/include -I%s/libcusp/include -I%s/libdist/include -isystem /usr/lib/llvm-14/include "
+             "-isystem /usr/lib/x86_64-linux-gnu/openmpi/include -isystem /usr/lib/x86_64-linux-gnu/openmpi/include/openmpi $defs -MD -MF $out.d -c $in -o $out\n"
+             "  depfile = $out.d\n  deps = gcc\n" % (COMMON_DEFS, REPO, REPO, nat, REPO, REPO, REPO, REPO))
+    L.append("rule link_dist\n  command = g++ -g $in -o $out -Wl,-rpath,/usr/lib/x86_64-linux-gnu/openmpi/lib %s/libgalois/libgalois_shmem.a /usr/lib/llvm-14/lib/libLLVMSupport.a "
+             "%s/lonestar/libdistbench/libdistbench.a /usr/lib/llvm-14/lib/libLLVMSupport.a -ldl -lm /usr/lib/x86_64-linux-gnu/libz.so /usr/lib/x86_64-linux-gnu/libtinfo.so "
+             "/usr/lib/llvm-14/lib/libLLVMDemangle.a %s/libgluon/libgalois_gluon.a %s/libdist/libgalois_dist_async.a %s/libgalois/libgalois_shmem.a -lrt "
+             "/usr/lib/x86_64-linux-gnu/libnuma.so /usr/lib/x86_64-linux-gnu/openmpi/lib/libmpi_cxx.so /usr/lib/x86_64-linux-gnu/openmpi/lib/libmpi.so -lpthread\n"
+             % (nat, nat, nat, nat, nat))
     L.append("rule cxx_gsched\n  command = g++ -std=c++17 -O2 -g -I%s/engine/gsched -MD -MF $out.d -c $in -o $out\n  depfile = $out.d\n  deps = gcc\n" % VERIF)
     L.append("rule link_sched\n  command = clang++ -g $in %s/libgalois/libgalois_shmem.a -lrapidcheck -lnuma -lpthread -ldl -o $out\n" % variant_dir("sched"))
     L.append("rule link_fuzz\n  command = clang++ -g -fsanitize=fuzzer,address,undefined $in %s/libgalois/libgalois_shmem.a $libs -lnuma -lpthread -ldl -o $out\n" % variant_dir("fuzz"))
@@ -138,6 +149,9 @@ def harness_ninja(harnesses):
         libs = " ".join(h.get("libs", []))
         if kind == "sched":
             L.append("build %s: link_sched %s gsched.o | %s/libgalois/libgalois_shmem.a\n" % (h["name"], " ".join(objs), variant_dir("sched")))
+        elif kind == "dist":
+            L.append("build %s: link_dist %s | %s/libgalois/libgalois_shmem.a %s/libgluon/libgalois_gluon.a %s/libdist/libgalois_dist_async.a %s/lonestar/libdistbench/libdistbench.a\n"
+                     % (h["name"], " ".join(objs), nat, nat, nat, nat))
         elif kind == "schedn":
             L.append("build %s: link_schedn %s gsched.o | %s/libgalois/libgalois_shmem.a\n" % (h["name"], " ".join(objs), variant_dir("schedn")))
         elif kind == "asan":
